@@ -12,560 +12,544 @@ Definition show_fres (r : fres) : string :=
   end.
 Definition check (rs : list rune) : string := digest (show_fres (format_res rs)).
 Definition full (rs : list rune) : string := show_fres (format_res rs).
-Eval vm_compute in ("<<<M339>>>" ++ check (runes_of_ascii "// @lengthOf(
-packet A { repeat rootA
-{ repeat o , BodyLength i64_ `// not a comment` ,  repeatCount @calculatedFrom(""it's"" ) , }
-    // @lengthOf(
-    ,
-//x
-//x
-@tag( 0 ) falsey @lengthOf( BodyLength
-), @leftPad ( ) @calculatedFrom( ""1"" )
-@lengthOf(int ) match trueish
-as body // trailing space 
-{ [ 007
-, 7
-,
-    ""abc"",
-""x y"" ,  00 , ""// no comment"" ,
-    255, 1
-]: body
-, } , @lengthOf( Pad ) metadata@calculatedFrom( ""it's"" )
-,
-    // `tick` ""quote"" 'q'
-    @leftPad() @calculatedFrom(	""" ++ [233]%N ++ runes_of_ascii "t" ++ [233]%N ++ runes_of_ascii """ ) char falsey `" ++ [233]%N ++ runes_of_ascii "`,char[
-007 ] metadata @lengthOf( chars) , @rightPad ( '0'
-) u8 // c
-roots@calculatedFrom( ""packet"" ) ,
-    string_ MetaDataX ,@lengthOf( Z9_ ) @leftPad ( '\x00' ) /// triple
-@rightPad
-    ( ' ' //
-) MetaDataX
-    `two words`  ,zchar[
-0
-    ]
-body// " ++ [27880; 37322]%N ++ runes_of_ascii "
-`line1
-line2` , } packet
-    // packet A { u8 x, }
-    uint8x {@rightPad  ( '0' )
-    //	t
-    char[]stringy,MetaDataX Z9_ , i8 Logon , } root packet
-    //	t
-    u // " ++ [128512]%N ++ runes_of_ascii " emoji
-{ int64 Z9_
-    , zchar[ 00 ]
-    string_
-    //
-    `" ++ [28040; 24687; 31867; 22411]%N ++ runes_of_ascii "` ,
-    @calculatedFrom(""a\""b""
-    )
-@tag( 3  ) @rightPad (
-'0' ) repeat u32 packetx `two words` , char[42
-] string_ , repeat Header lengthOf ,
-}
-options // packet A { u8 x, }
-{	} packet Header
-// " ++ [128512]%N ++ runes_of_ascii " emoji
-// packet A { u8 x, }
-{ @rightPad
-(//x
-)metadata { char[ 65535// c
-]o, repeat x
-// c
-/// triple
-{char[
-4294967296 ]  options1 , }
-// c
-// a // b
-,
-roots Header, } , }
-")).
-Eval vm_compute in ("<<<M43>>>" ++ check (runes_of_ascii "packet asx {
-    leftPad@calculatedFrom( """ ++ [233]%N ++ runes_of_ascii "t" ++ [233]%N ++ runes_of_ascii """ ) , @leftPad
-(  '0')
-    // trailing space 
-    u8x As `crlf
-line` ,char[ 3 ] asx @calculatedFrom( ""{,}"" )  ,
-// @lengthOf(
-// trailing space 
-repeat u128  { int {packetx @calculatedFrom( ""packet"" )
-    ,	match
-T as  T
-{ ""a	b""
-: o , } , zchar[ 00
-    ]lengthOf
-`{ , }` ,
-/// triple
-// trailing space 
-char[] crc @calculatedFrom( ""abc"" )
-, } , Header	@calculatedFrom( """ ++ [233]%N ++ runes_of_ascii "t" ++ [233]%N ++ runes_of_ascii """ )
-`two words` ,
-repeat uint8 uint8x , repeat
-    //
-    char[0123456789 ]float`u8 x,`,} ,
-packetx x `say ""hi""` , @rightPad ( )
-i8i8
-    @calculatedFrom( ""x y""), @leftPad
-    ( ) BodyLength {repeat	int32
-_x ``  , i8 msg_type
-`doc` //
-, }, }
-// `tick` ""quote"" 'q'
-// packet A { u8 x, }
-packet body { }	packet	repeatCount{zchar[  3 ] Packet, @lengthOf( // @lengthOf(
-Header  )
-    i64
-// c
-// c
-Packet `two words` ,
-zchar[ 65535
-]calculatedFrom `tab	here`//	t
-, match x as leftPad
-    { ""// no comment"": rootA
-    , ""`tick`"" :
-o,
-}
-,// " ++ [128512]%N ++ runes_of_ascii " emoji
-zchar[ //	t
-3 ]
-// packet A { u8 x, }
-// " ++ [27880; 37322]%N ++ runes_of_ascii "
-u128 @calculatedFrom( ""{,}"" ) `{ , }`
-    ,
-}
-    //	t
-    options { u = char[ 42 ] // " ++ [27880; 37322]%N ++ runes_of_ascii "
-metadata
-=""a\\""
-;  Logon =
-string ; Z9_ = u16
-;  }
-")).
-Eval vm_compute in ("<<<M129>>>" ++ check (runes_of_ascii "packet
-MetaDataX { metadata trueish`" ++ [233]%N ++ runes_of_ascii "`
-//x
-//x
-,// trailing space 
-@calculatedFrom(""`tick`"" )uint8x
-    // c
-    @calculatedFrom(  """ ++ [128512]%N ++ runes_of_ascii """  ) `{ , }`
-    , @calculatedFrom( ""a\""b"" ) // packet A { u8 x, }
-match Packet as
-    body { 3
-    : repeatCount
-,""x y""
-    /// triple
-    :lengthOf// `tick` ""quote"" 'q'
-4294967296 :
-    packetx
-    , [ ""abc""
-, ""// no comment""
-    ,
-""abc"" ,
-""\n"" //	t
-, ""1""
-]: u128 [ 00 , 65535 ,""x y"" ,""{,}""  ]
-: calculatedFrom ,
-    7 :	i8i8  }, u8x ,match int as	matchKey{
-[1 ,""CRC32""]
-    // trailing space 
-    :// @lengthOf(
-asx,	}
-    , @lengthOf( // " ++ [128512]%N ++ runes_of_ascii " emoji
-a1) string x `it's` , repeat // @lengthOf(
-char matchKey  ,
-    // a // b
-    @leftPad // trailing space 
-( )@rightPad ( ) match
-metadata	as  Packet { [ 65535  ] : Header , }, @tag( 255)
-zchar[ 3 ] crc `u8 x,` ,} MetaData
-    rootA // trailing space 
-{
-i8i8	Pad , int8
-packetx `{ , }`
-,
-    int8 stringy,
-    // `tick` ""quote"" 'q'
-    body _x  , body o , }")).
-Eval vm_compute in ("<<<M221>>>" ++ check (runes_of_ascii "packet u128
-{ @rightPad (
-' ' )
-i64_ { Logon ,char[ 4294967296
-    // @lengthOf(
-    ] MetaDataX@calculatedFrom( """ ++ [28040; 24687]%N ++ runes_of_ascii """ ) , } // " ++ [27880; 37322]%N ++ runes_of_ascii "
-,	rootA{ zchar[
-    // " ++ [128512]%N ++ runes_of_ascii " emoji
-    1 // a // b
-]rootA ,
-asx { rootA @calculatedFrom( ""abc""  ), repeat uint16 x_y_z
-,
-    // packet A { u8 x, }
-    zchar[
-42
-    ] stringy ,body , }, }, @leftPad
-( '\x00' ) char[ 3]Z9_ @lengthOf(  roots )
-    // trailing space 
-    `" ++ [233]%N ++ runes_of_ascii "`	, @lengthOf( charz	) @leftPad ( '0')@calculatedFrom(  ""a\""b"" )
-    zchar[//	t
-7 ]
-    // @lengthOf(
-    a1 @calculatedFrom( ""\" ++ [233]%N ++ runes_of_ascii """
-) //
-`// not a comment` ,
-@lengthOf( lengthOf ) repeat
-i16
-chars
-,int
-{
-    //	t
-    zchar[
-    1 ] calculatedFrom`line1
-line2`,Packet `" ++ [28040; 24687; 31867; 22411]%N ++ runes_of_ascii "` , } ,// " ++ [128512]%N ++ runes_of_ascii " emoji
-@rightPad ( '\x00'  )
-    zchar[255 // `tick` ""quote"" 'q'
-]
-    repeatCount @calculatedFrom(""\" ++ [233]%N ++ runes_of_ascii """ ) , repeat
-    char[] Pad
-`a\` ,  @lengthOf( pack )	i8 int , }")).
-Eval vm_compute in ("<<<M1495>>>" ++ check (runes_of_ascii "
-options  { StringPrefixLenType
-
-    =u8 ;	ArrayPrefixLenType  = u32
-    ;
-FixedStringPadFromLeft = true ;	FixedStringPadChar
-=
-' ' ;
-
-} packet Leg 
-{ 
-} packet 
-Heartbeat	{
-zchar[  6]
-msgKind , @rightPad ( 
-'0'
-
-    )
-
-    char[ 
-3
-
-]  Qty 
-,
-
-zchar[ 9]
-Side2  ,
-
-    i8 Acct
-,  }
-    packet  Logout
-    {
-int8
-x	, }packet
-
-    Order
-
-{ char[] Acct 
-,
-    zchar[
-
-    8
-]	count
-
-,
-u32 OrderId
-,
-
-    uint8	lastPx
-
-    ,
-	u16 clOrdID 
-, 
-zchar[
-7
-    ]
-Note ,
-	}
-
-    root packet
-
-Reject{
-@leftPad
-(
-    ' ' )char[
-8
-] Side2  ,
-i8
-clOrdID
-, repeat
-
-    f32
-
-    x, u32
-	lastPx,
-match	lastPx
-
-as
-	Body
-
-    {
-[  30
-    ,  147
-
-] :
-	Heartbeat,
-
-134 :Leg
-
-,183 
-: Logout
-,
-
-40	:
-    Order
-	,
-	}
-,u16
-Ref @calculatedFrom(
-
-""CR\
-C32""  )
-    ,
-}")).
-Eval vm_compute in ("<<<M201>>>" ++ check (runes_of_ascii "packet charz
-{ //	t
-repeat i64_ ,trueish {
-repeat _x
-    ,	repeatCount, repeat u16
-matchKey `
-`
-,
-// " ++ [128512]%N ++ runes_of_ascii " emoji
-// a // b
-matchKey @calculatedFrom( ""a\""b"" )
-`it's` ,}	,
-@tag(
-007 )@calculatedFrom(
-    ""a\\"")	@tag(
-    3 // @lengthOf(
-)f32 f32a @lengthOf(asx ) `crlf
-line` // packet A { u8 x, }
-, repeat i8 string_
-,
-    @lengthOf(
-    // @lengthOf(
-    Logon  ) @lengthOf( x_y_z )
-    @lengthOf(
-zchar
-    ) repeat char[ 65535	] Foo`" ++ [233]%N ++ runes_of_ascii "`,
-@calculatedFrom(//
-""abc""
-) trueish @lengthOf( A )
-// " ++ [27880; 37322]%N ++ runes_of_ascii "
-// a // b
-,char[ 0 ] float , Packet
-    @calculatedFrom( ""a	b""
-), } MetaData
-    Pad { char[ 00 ] leftPad , u8 rootA `
-`,
-//
-// " ++ [128512]%N ++ runes_of_ascii " emoji
-int32
-    a1	`say ""hi""`
-    ,
-Z9_ float , //x
-i32 Pad ,
-}")).
-Eval vm_compute in ("<<<M147>>>" ++ check (runes_of_ascii "root
-    packet falsey{	@tag( 255) len@calculatedFrom( ""`tick`""
-    )//
-,match MetaDataX as
-crc
-{	[7 ] :
-    roots ,} ,	@tag( 10 ) @tag(
-// `tick` ""quote"" 'q'
-// `tick` ""quote"" 'q'
-10//
-) @tag( 255)	repeat /// triple
-uint64 rootA	, tag // a // b
-`" ++ [28040; 24687; 31867; 22411]%N ++ runes_of_ascii "` ,
-float32  i64_ , int64 _x  `doc` , @leftPad( ' '
-    )
-match
-// @lengthOf(
-// @lengthOf(
-i8i8 as pack { // `tick` ""quote"" 'q'
-7 : Logon , ""x y"" : lengthOf , } , // trailing space 
-match x_y_z as u
-{
-// `tick` ""quote"" 'q'
-// " ++ [27880; 37322]%N ++ runes_of_ascii "
-[ 0123456789 ] :	packetx ,007 :x_y_z
-// trailing space 
-//
-, 10 : rootA , 7 : u 0123456789 :falsey
-, }	, // packet A { u8 x, }
-}
-")).
-Eval vm_compute in ("<<<M1116>>>" ++ check (runes_of_ascii "// top
-MetaData // c0
-Packet // c1
-{ // c2
-} // c3
-packet // c4
-charz // c5
-{ // c6
-Foo // c7
-asx // c8
-`it's` // c9
-, // c10
-@lengthOf( // c11
-T // c12
-) // c13
-@calculatedFrom( // c14
-"""" // c15
-) // c16
-@calculatedFrom( // c17
-""x y"" // c18
-) // c19
-zchar[ // c20
-007 // c21
-] // c22
-repeatCount // c23
-@lengthOf( // c24
-int // c25
-) // c26
-`a\` // c27
-, // c28
-i8 // c29
-string_ // c30
-, // c31
-repeat // c32
-options1 // c33
-Pad // c34
-, // c35
-} // c36
-root // c37
-packet // c38
-Packet // c39
-{ // c40
-int8 // c41
-float // c42
-`doc` // c43
-, // c44
-} // c45
-")).
-Eval vm_compute in ("<<<M1846>>>" ++ check (runes_of_ascii "//x
-root packet float {
-    options1 A,
-    @tag(42)
-    u8x {
-        tag @calculatedFrom(""\" ++ [233]%N ++ runes_of_ascii """) `tab	here`,
-    },
-    int16 asx,
-    @lengthOf(o)
-    @rightPad()
-    repeat int Logon,
-    @calculatedFrom(""// no comment"")
-    @leftPad('\x00')
-    @rightPad('0')
-    zchar[65535] o `
-    `,
-    repeat As {
-        //x
-        repeat uint16 o,
-        repeat char[1] o,
-        u128 metadata,
-        repeat char[7] Header,
-    },
-    @tag(0123456789)
-    a1 tag,
-    float32 asx,
-    repeat len ``,
-}")).
-Eval vm_compute in ("<<<M253>>>" ++ check (runes_of_ascii "packet
-u	{ @lengthOf( //
-zchar )match Header as len  {
-    42// trailing space 
+Eval vm_compute in ("<<<M213>>>" ++ check (runes_of_ascii "
+packet body
+{@tag(
+    3 ) i16 options1 ,  repeat string
+body ,
+@calculatedFrom( // trailing space 
+""a\""b""
+) x_y_z @calculatedFrom(
+""a\\"") `it's` , match o as BodyLength
+{ 00
 :
-    x_y_z ,
-    // " ++ [27880; 37322]%N ++ runes_of_ascii "
-    },rootA	`
-`	,	match u8x as pack {[ 1 , """" ]
-    : float , ""abc""  :
-string_ ,42 :
-    i64_/// triple
-,
-1:zchar
-// trailing space 
-// " ++ [128512]%N ++ runes_of_ascii " emoji
-} ,char[ 3 ] int ,
-match options1 as u128 { [ ""`tick`"" ] : u
-// packet A { u8 x, }
-/// triple
-, } ,	}
-options {	len	= //	t
-i8 // " ++ [27880; 37322]%N ++ runes_of_ascii "
-; zchar = true; } packet T{char[ 42 ] asx@calculatedFrom(""CRC32"" ) , }
-")).
-Eval vm_compute in ("<<<M256>>>" ++ check (runes_of_ascii "
-options // " ++ [27880; 37322]%N ++ runes_of_ascii "
-{ T = zchar[ 42
-] options1 = uint8 ;
-lengthOf
-=
-    // a // b
-    char[4294967296
-    ]
-    ; } packet Z9_ { repeat
-MetaDataX
+pack,
+1 : u	,
+[255,255,""// no comment"" ]
+    : Packet	[ 65535 ] :  i64_ , }
+// @lengthOf(
+//
+,// a // b
+@calculatedFrom( // c
+""" ++ [233]%N ++ runes_of_ascii "t" ++ [233]%N ++ runes_of_ascii """ ) string// `tick` ""quote"" 'q'
+len `tab	here`,
+    @tag( 0123456789
+) repeat
+    //	t
+    matchKey A `a\`,
+    i8i8 Packet , stringy @calculatedFrom( ""x y"" ) ,f32a As
 `crlf
-line`
-    ,
-repeat string x_y_z	,
-    u32 x
-, // `tick` ""quote"" 'q'
-@tag(
-// " ++ [128512]%N ++ runes_of_ascii " emoji
-// " ++ [128512]%N ++ runes_of_ascii " emoji
-00 )repeat i64 Logon ,
-u8x
-f32a, repeat
-    lengthOf``, repeat
-stringy Pad
-    // @lengthOf(
-    `
-`,
+line` ,u128{ repeat
+    int  {
     repeat
-    string_ chars `// not a comment` , }
-
+    zchar[255 ] a1`{ , }`
+,
+// a // b
+// a // b
+match calculatedFrom as body//	t
+{
+    0 // " ++ [27880; 37322]%N ++ runes_of_ascii "
+:body	42
+    // c
+    :tag // @lengthOf(
+, ""1""	:packetx , ""it's"":  roots,}, i32 u @calculatedFrom(// " ++ [128512]%N ++ runes_of_ascii " emoji
+""a\\"" ) ,
+}	,
+string_`crlf
+line`, _x  , repeat lengthOf crc ,	}, // " ++ [27880; 37322]%N ++ runes_of_ascii "
+}
+MetaData rootA {
+uint8	tag , string	Z9_ `u8 x,` ,
+    f64 float ,
+    Logon
+falsey`a\`
+, } packet len{  char[] u	`// not a comment`, char[] Header
+`// not a comment`	, string charz
+// a // b
+/// triple
+`tab	here` ,
+    //
+    @leftPad
+    // packet A { u8 x, }
+    ( )@lengthOf(
+a1)
+// " ++ [128512]%N ++ runes_of_ascii " emoji
+//x
+len
+crc, @leftPad ( ' ' )Packet @calculatedFrom(""" ++ [128512]%N ++ runes_of_ascii """ ) , repeat uint8 a1
+, match
+    T as As { ""packet"": Logon , [	""" ++ [128512]%N ++ runes_of_ascii """
+    , 0 ]
+: i64_ , [ ""packet"" , 7
+    ]
+    : string_ ,
+} , repeat//
+zchar[
+007 ] zchar `{ , }` ,
+    }
 ")).
-Eval vm_compute in ("<<<M235>>>" ++ check (runes_of_ascii "packet crc
+Eval vm_compute in ("<<<M1410>>>" ++ check (runes_of_ascii "// top
+options {
+    // c1a
+    // c1b
+    StringPrefixLenType = u8;
+    ArrayPrefixLenType = u32;// c9
+    FixedStringPadFromLeft = true;
+    // c13
+    FixedStringPadChar = ' ';
+    // c17
+}// c18a
+
+// c18b
+packet Leg {
+}
+
+packet Heartbeat {
+    // c25
+    zchar[6] msgKind,
+    @rightPad('0')
+    // c34
+    char[3] Qty,
+    zchar[9] Side2,
+    // c44
+    i8 Acct,
+    // c47
+}// c48a
+
+// c48b
+packet Logout {
+    // c51a
+    // c51b
+    int8 x,
+    // c54
+}// c55
+
+packet Order {
+    // c58a
+    // c58b
+    char[] Acct,// c61
+    zchar[8] count,
+    u32 OrderId,
+    uint8 lastPx,
+    u16 clOrdID,
+    zchar[7] Note,
+    // c80
+}// c81
+
+root packet Reject {
+    @leftPad(' ')
+    char[8] Side2,// c94a
+    // c94b
+    i8 clOrdID,
+    // c97
+    repeat f32 x,
+    // c101
+    u32 lastPx,
+    // c104
+    match lastPx as Body {
+        // c109a
+        // c109b
+        [30, 147] : Heartbeat,
+        // c117
+        134 : Leg,
+        // c121
+        183 : Logout,
+        40 : Order,
+        // c129a
+        // c129b
+    },// c131
+    u16 Ref @calculatedFrom(""CRC32""),
+    // c137
+}// c138")).
+Eval vm_compute in ("<<<M176>>>" ++ check (runes_of_ascii "
+packet i8i8 { @tag( 0 ) int32
+leftPad `it's`
+, repeat char[]Header`crlf
+line`
+, @calculatedFrom( ""\" ++ [233]%N ++ runes_of_ascii """ )/// triple
+repeat
+    uint8 float , @rightPad
+('\x00' ) char[] zchar@lengthOf(
 // a // b
 //x
-{	u128
-    packetx , // " ++ [128512]%N ++ runes_of_ascii " emoji
-match roots	as
+leftPad )
+`
+` , Z9_ ,
+@lengthOf(
+x ) match As as
+    tag {	""a	b""  :
+string_ [
+10 , 7 , ""1"" , 255
+,
+3
+    , 42 ,
     //
-    falsey
-{ 0123456789 // a // b
-: Header ""packet""// a // b
-: // a // b
-Z9_	3 : A ,
-// trailing space 
+    0123456789, """ ++ [128512]%N ++ runes_of_ascii """ ] :x_y_z ,""CRC32""
+: Z9_  , 00
+    // c
+    : Logon
+    ,
+} , @tag(007) o {
+    char
+    Packet
+@lengthOf(
+    //	t
+    repeatCount
+) , } , @lengthOf(
+// " ++ [27880; 37322]%N ++ runes_of_ascii "
+/// triple
+pack
+) float64 rootA `two words`
+    ,	repeat char[] BodyLength ,}
+packet Z9_{ match
+    // packet A { u8 x, }
+    As
+as
+    a1{ //
+0: trueish // `tick` ""quote"" 'q'
+,} ,
+/// triple
+// " ++ [27880; 37322]%N ++ runes_of_ascii "
+} root packet u8x {
+/// triple
+// " ++ [128512]%N ++ runes_of_ascii " emoji
+repeat
+string Logon `tab	here` , // " ++ [128512]%N ++ runes_of_ascii " emoji
+}	options { _x
+=
+    ""packet""
+;f32a =007 } packet i8i8 {@calculatedFrom( ""CRC32"" )
+A @lengthOf(
+a1
+)
+, } 	 ")).
+Eval vm_compute in ("<<<M1937>>>" ++ check (runes_of_ascii "options 
+{
+	}  packet
+	u8x
+
+{  string
+
+uint8x
+@calculatedFrom(
+	""{,}"")
+	`crlf
+line`  , } MetaData
+	falsey {	Logon packetx  `tab	here`
+,  }
+    root  packet
+o
+{
+falsey
+	@calculatedFrom(
+//x
+// " ++ [27880; 37322]%N ++ runes_of_ascii "
+""" ++ [28040; 24687]%N ++ runes_of_ascii """)
+
+,
+
+@tag( 0123456789
+
+    )	// `tick` ""quote"" 'q'
+char[
+    // `tick` ""quote"" 'q'
+  0123456789
+] 
+u128 @calculatedFrom(	""{,}""  )
+
+, @tag(	00
+	)
+
+    @lengthOf(stringy)
+	@tag(	4294967296)rootA
+    Header  ,
+    @lengthOf( 
+As
+	)  repeat 
+leftPad
+
+    `// not a comment`  // c
+
+	,
+
+i8 leftPad@calculatedFrom(  """"
+	)
+	,@tag( 
+10 )
+zchar[	007
+]	packetx
+
+    @lengthOf(// packet A { u8 x, }
+  u8x
+	)
+    `" ++ [28040; 24687; 31867; 22411]%N ++ runes_of_ascii "`
+,}
+    packet
+
+options1
+{  
+  //	t
+
+  // trailing space 
+
+falsey // packet A { u8 x, }
+{	//	t
+    zchar[
+	3]  // " ++ [128512]%N ++ runes_of_ascii " emoji
+	  roots
+//
 // a // b
-""a	b""  : roots 10
-:  _x
-, } , @tag( 255// a // b
-) match
-calculatedFrom  as	o {
-    255 : string_ """ ++ [28040; 24687]%N ++ runes_of_ascii """ : i64_
-,	} , }MetaData
-T
-{ float64 u	,} packet Pad { /// triple
-}
+
+	, u32 
+Header // c
+		,
+} 
+, // a // b
+
+	}
+
 ")).
-Eval vm_compute in ("<<<M1335>>>" ++ check (runes_of_ascii "options {
+Eval vm_compute in ("<<<M90>>>" ++ check (runes_of_ascii "root packet lengthOf
+{ // a // b
+match i64_  as options1{	""// no comment"":
+    // packet A { u8 x, }
+    f32a
+    // @lengthOf(
+    , 65535 :
+    falsey, } ,  @tag(
+0
+)  char[]
+    body
+@lengthOf(  lengthOf ) ,	u64 string_ `it's`,@lengthOf( string_ // packet A { u8 x, }
+)crc {repeat
+zchar[ 3
+] u	,	pack // packet A { u8 x, }
+`a\`// trailing space 
+,char[] crc `` , } //x
+,int16 // packet A { u8 x, }
+metadata `line1
+line2`, }root	packet //	t
+leftPad
+{ repeat	zchar[
+4294967296 //x
+] MetaDataX
+    ,@tag( 10 // `tick` ""quote"" 'q'
+) match  tag as falsey
+{ 7:
+    BodyLength
+, 0 : i64_ ,} , repeat char[ 255
+    // @lengthOf(
+    ] A
+,
+char[ 7]
+trueish @calculatedFrom(	""a\\"" ) `two words`
+// " ++ [128512]%N ++ runes_of_ascii " emoji
+//	t
+, i16
+Logon, }
+")).
+Eval vm_compute in ("<<<M1951>>>" ++ check (runes_of_ascii "options {
+}
+
+packet u8x {
+    string uint8x @calculatedFrom(""{,}"") `crlf
+        line`,
+}
+
+MetaData falsey {
+    Logon packetx `tab	here`,
+}
+
+root packet o {
+    falsey @calculatedFrom(""" ++ [28040; 24687]%N ++ runes_of_ascii """),
+    @tag(0123456789)
+    // `tick` ""quote"" 'q'
+    char[0123456789] u128 @calculatedFrom(""{,}""),
+    @tag(00)
+    @lengthOf(stringy)
+    @tag(4294967296)
+    rootA Header,
+    @lengthOf(As)
+    repeat leftPad `// not a comment`,
+    i8 leftPad @calculatedFrom(""""),
+    @tag(10)
+    zchar[007] packetx @lengthOf(u8x) `" ++ [28040; 24687; 31867; 22411]%N ++ runes_of_ascii "`,
+}
+
+packet options1 {
+    //	t
+    // trailing space 
+    falsey {
+        //	t
+        zchar[3] roots,
+        u32 Header,
+    },// a // b
+}")).
+Eval vm_compute in ("<<<M131>>>" ++ check (runes_of_ascii "
+root
+packet
+u8x{ char
+// trailing space 
+// @lengthOf(
+i64_ ,repeat char[1
+] Z9_ , @tag(
+//x
+// " ++ [128512]%N ++ runes_of_ascii " emoji
+42
+) repeat Logon MetaDataX , @leftPad
+    //
+    ( )
+    Foo
+@lengthOf( As
+    ) // " ++ [128512]%N ++ runes_of_ascii " emoji
+, match u128	as //	t
+calculatedFrom {// " ++ [128512]%N ++ runes_of_ascii " emoji
+4294967296:
+BodyLength,
+    3:  A , //
+[ 4294967296//
+, ""packet""] : o	, 65535 : roots } ,
+repeat Pad { uint64 x @calculatedFrom( """ ++ [128512]%N ++ runes_of_ascii """
+    ) , a1 @lengthOf( As)
+    `line1
+line2` ,	repeat string_{repeat uint32 _x	, f32
+MetaDataX `it's`
+    //	t
+    , u64 As  @lengthOf( crc ) , } ,
+    roots , }, zchar[  00] // @lengthOf(
+u128, }
+//	t
+")).
+Eval vm_compute in ("<<<M296>>>" ++ check (runes_of_ascii "MetaData u128
+{  zchar[ 3 ] matchKey	`crlf
+line` //
+, } // packet A { u8 x, }
+options
+{ //x
+} root	packet rootA
+    { @calculatedFrom(
+    ""{,}"" ) repeat u16 len ,repeat body,i8i8 @lengthOf( packetx),metadata int `line1
+line2` ,  uint8x `two words` // c
+, int16 //
+x_y_z
+, repeatCount , Logon {  repeat// trailing space 
+i8 Packet `line1
+line2`
+, } ,}
+options
+{// " ++ [128512]%N ++ runes_of_ascii " emoji
+lengthOf
+//
+// trailing space 
+= ' ' ;
+i64_ = ""{,}"" ; msg_type
+= '0'
+; u=
+// packet A { u8 x, }
+// " ++ [27880; 37322]%N ++ runes_of_ascii "
+i32;_x = ""abc""
+    // packet A { u8 x, }
+    ; }
+")).
+Eval vm_compute in ("<<<M193>>>" ++ check (runes_of_ascii "
+root packet lengthOf{
+    char[ 3 ] Pad ,	@rightPad
+    (  '0'
+)
+    crc `doc` ,i32 //x
+uint8x
+,	zchar { match Logon  as int { [ 0 , """ ++ [233]%N ++ runes_of_ascii "t" ++ [233]%N ++ runes_of_ascii """] :o , ""// no comment"" :len ,
+} , asx
+{
+    //x
+    char[	10 ]
+u128 // a // b
+@lengthOf(  x_y_z)`say ""hi""`, }
+/// triple
+//
+, char[
+1 ] A, u// c
+chars
+    `` , }, repeat matchKey
+{ //x
+string trueish@calculatedFrom(
+    ""a	b""  )  , repeat
+    // packet A { u8 x, }
+    i8 msg_type `it's` ,	} , /// triple
+}
+packet float { }")).
+Eval vm_compute in ("<<<M1926>>>" ++ check (runes_of_ascii "// top
+options {
+    // c1
+    uint8x = 007;// c5
+    lengthOf = i8;// c9
+}// c10
+
+packet i64_ {
+    // c13
+    @calculatedFrom(""1"")
+    // c16
+    @tag(3)
+    // c19
+    @lengthOf(rootA)
+    // c22
+    repeat int8 Packet `u8 x,`,// c27
+}// c28
+
+root packet stringy {
+    // c32
+    @rightPad(' ')
+    // c36
+    repeat char[10] repeatCount,// c42
+    @tag(255)
+    // c45
+    float64 msg_type @calculatedFrom(""packet""),// c51
+}// c52")).
+Eval vm_compute in ("<<<M220>>>" ++ check (runes_of_ascii "root
+    packet string_{
+//	t
+//x
+i16 o /// triple
+,
+    @tag( 4294967296
+)
+repeat char o ,Foo {match MetaDataX // trailing space 
+as leftPad
+    { 0123456789 : calculatedFrom ,
+[ 0 ]
+: u128}
+, repeat
+u
+// `tick` ""quote"" 'q'
+// @lengthOf(
+{
+    zchar[65535]body@lengthOf( float  )
+,o , asx @calculatedFrom( ""{,}"" ) `it's` // `tick` ""quote"" 'q'
+,}// `tick` ""quote"" 'q'
+,
+} ,  }
+")).
+Eval vm_compute in ("<<<M1787>>>" ++ check (runes_of_ascii "MetaData Header {
+}
+
+packet crc {
+    match zchar as leftPad {
+        7 : As,
+        0 : Packet,
+        [00] : Pad,
+        //x
+        //x
+        ""// no comment"" : calculatedFrom,
+        3 : string_,
+    },
+    falsey packetx `crlf
+        line`,// " ++ [27880; 37322]%N ++ runes_of_ascii "
+    @tag(42)
+    repeat u64 packetx,
+    @calculatedFrom(""1"")
+    repeat u16 calculatedFrom,
+}")).
+Eval vm_compute in ("<<<M1338>>>" ++ check (runes_of_ascii "options {
     LittleEndian = true;
     StringPrefixLenType = u16;
     FixedStringPadChar = ' ';
@@ -585,93 +569,129 @@ root packet Ack {
     },
 }
 ")).
-Eval vm_compute in ("<<<M182>>>" ++ check (runes_of_ascii "root packet int {match MetaDataX	as charz
-{ 255 :uint8x , 65535 : // @lengthOf(
-u128 ""\" ++ [233]%N ++ runes_of_ascii """
-:o,0123456789 : _x ""{,}"" :
-    matchKey
-// `tick` ""quote"" 'q'
-// `tick` ""quote"" 'q'
-[4294967296 ,"""" ,	10
-    ]: charz , }	, @lengthOf( roots
-) x @calculatedFrom( ""\n"" )
-    , i32
-    tag , }")).
-Eval vm_compute in ("<<<M1291>>>" ++ check (runes_of_ascii "// top
-root
+Eval vm_compute in ("<<<M262>>>" ++ check (runes_of_ascii "  packet  Logon
+    { o Header ,	Header
+, @lengthOf(
+u )	char[ 255 ] tag `tab	here`, char[]falsey ,
+    @lengthOf(	zchar )
+    @rightPad (
+) float roots// @lengthOf(
+,
+@calculatedFrom(	""// no comment"") i64
+u8x,
+} options { metadata = '0' ;_x = 4294967296 ; Packet
+    =
+    '0'
+;
+    }
+
+")).
+Eval vm_compute in ("<<<M1274>>>" ++ check (runes_of_ascii "// top
+options
     // c0
-packet
-    // c1
-P // c2a
-  // c2b
-{ // c3
-u8 // c4
-s_u8 // c5a
+{ // c1a
+  // c1b
+FixedStringPadFromLeft
+    // c2
+= // c3
+true
+    // c4
+; // c5a
   // c5b
-, // c6
-repeat u8 // c8a
-  // c8b
-r_u8 // c9a
-  // c9b
-,
+}
+    // c6
+root // c7
+packet P {
     // c10
-u16 // c11a
+char[ // c11a
   // c11b
-b_len // c12a
+4 // c12a
   // c12b
-, // c13a
-  // c13b
-} // c14a
-  // c14b
-")).
-Eval vm_compute in ("<<<M351>>>" ++ check (runes_of_ascii "MetaData leftPad// packet A { u8 x, }
-{ string u128 `say ""hi""` //
-, // c
-A packetx
-    //	t
-    , char[
-//
-// packet A { u8 x, }
-42
-]
-leftPad
-    `tab	here` // trailing space 
-,i16 crc ,
-string uint8x // a // b
+] z // c14
 ,
-}")).
-Eval vm_compute in ("<<<M1918>>>" ++ check (runes_of_ascii "
-options{
-falsey 
+    // c15
+} // c16a
+  // c16b
+")).
+Eval vm_compute in ("<<<M1328>>>" ++ check (runes_of_ascii "packet
+
+    Logon
+    {
+
+string
+
+    user
+,} root	packet	Frame{ u8 K 
+,
+    match  K 
+as Body
+	{ 1
+:
+    Logon ,2
+: Logout  ,
+
+}  ,
+	Tail, }
+
+    packet
+Logout
+	{ u16	reason ,
+
+}
+	packet  Tail
+{u32	crc
+    ,  }
+")).
+Eval vm_compute in ("<<<M38>>>" ++ check (runes_of_ascii "options
+{ falsey
     /// triple
-    =  false
-	;falsey
+    = false ; falsey=
+    //
+    int16// `tick` ""quote"" 'q'
+;
+    // `tick` ""quote"" 'q'
+    A =
+    // trailing space 
+    u32  ;
+    trueish	= 1  ;
+    }
+")).
+Eval vm_compute in ("<<<M44>>>" ++ check (runes_of_ascii "
+packet repeatCount
+    {
+trueish , } packet uint8x
+{/// triple
+match u8x as calculatedFrom
+    { [ 4294967296 ]: len ,
+[ """ ++ [128512]%N ++ runes_of_ascii """ ,	""" ++ [233]%N ++ runes_of_ascii "t" ++ [233]%N ++ runes_of_ascii """ , 255 , //
+1
+] : falsey , } , }
+")).
+Eval vm_compute in ("<<<M453>>>" ++ check (runes_of_ascii "packet uint8x
+{ match pack
+    as msg_type	{
+    0123456789 :	float
+}
+@lengthOf(
+} packet //	t
+a1
+    { } options {packetx
+    = '\x00'	; u128= ""a	b""  ; }
+")).
+Eval vm_compute in ("<<<M1446>>>" ++ check (runes_of_ascii "  MetaData	leftPad
+    { chars
 
-    = 
-//
-  int16	// `tick` ""quote"" 'q'
-  ; 
-	// `tick` ""quote"" 'q'
-  A
-    = 
-	// trailing space 
-u32
-    ; trueish = 1  ;  }")).
-Eval vm_compute in ("<<<M1429>>>" ++ check (runes_of_ascii "// top
-options {
-    // c1
-    LittleEndian = true;
-    // c5
-}
+MetaDataX	,
+    }
+    packet  repeatCount { char[255 ]uint8x `" ++ [233]%N ++ runes_of_ascii "`,
+	} MetaData
 
-// c6
-root packet P {
-    u16 a,// c13
-    u32 Sum @calculatedFrom(""CRC32""),
-    // c19
-}// c20a
-// c20b")).
-Eval vm_compute in ("<<<M392>>>" ++ check (runes_of_ascii "packet packet uint8x
+    pack
+	{
+
+    As	Foo	,}  
+      // c")).
+Eval vm_compute in ("<<<M548>>>" ++ check (runes_of_ascii "packet uint8x
 { match pack
     as msg_type	{
     0123456789 :	float
@@ -680,9 +700,20 @@ Eval vm_compute in ("<<<M392>>>" ++ check (runes_of_ascii "packet packet uint8x
 } packet //	t
 a1
     { } options {packetx
+    ''= '\x00'	; u128= ""a	b""  ; }
+")).
+Eval vm_compute in ("<<<M452>>>" ++ check (runes_of_ascii "packet uint8x
+{ match pack
+    as msg_type	{
+    0123456789 :	float
+}
+}
+, packet //	t
+a1
+    { } options {packetx
     = '\x00'	; u128= ""a	b""  ; }
 ")).
-Eval vm_compute in ("<<<M523>>>" ++ check (runes_of_ascii "packet uint8x
+Eval vm_compute in ("<<<M505>>>" ++ check (runes_of_ascii "packet uint8x
 { match pack
     as msg_type	{
     0123456789 :	float
@@ -691,278 +722,254 @@ Eval vm_compute in ("<<<M523>>>" ++ check (runes_of_ascii "packet uint8x
 } packet //	t
 a1
     { } options {packetx
-    = '\x00'	; u128= MetaData  ; }
+    = '\x00'	 u128= ""a	b""  ; }
 ")).
-Eval vm_compute in ("<<<M463>>>" ++ check (runes_of_ascii "packet uint8x
-{ match pack
-    as msg_type	{
-    0123456789 :	float
-}
-,
-} float32 //	t
-a1
-    { } options {packetx
-    = '\x00'	; u128= ""a	b""  ; }
-")).
-Eval vm_compute in ("<<<M472>>>" ++ check (runes_of_ascii "packet uint8x
-{ match pack
-    as msg_type	{
-    0123456789 :	float
-}
-,
-} packet //	t
-a1
-    } { options {packetx
-    = '\x00'	; u128= ""a	b""  ; }
-")).
-Eval vm_compute in ("<<<M525>>>" ++ check (runes_of_ascii "packet uint8x
-{ match pack
-    as msg_type	{
-    0123456789 :	float
-}
-,
-} packet //	t
-a1
-    { } options {packetx
-    = '\x00'	; u128= ""a	b""   }
-")).
-Eval vm_compute in ("<<<M405>>>" ++ check (runes_of_ascii "packet uint8x
-{  pack
-    as msg_type	{
-    0123456789 :	float
-}
-,
-} packet //	t
-a1
-    { } options {packetx
-    = '\x00'	; u128= ""a	b""  ; }
-")).
-Eval vm_compute in ("<<<M480>>>" ++ check (runes_of_ascii "packet uint8x
-{ match pack
-    as msg_type	{
-    0123456789 :	float
-}
-,
-} packet //	t
-a1
-    { }  {packetx
-    = '\x00'	; u128= ""a	b""  ; }
-")).
-Eval vm_compute in ("<<<M71>>>" ++ check (runes_of_ascii "root packet MetaDataX
-{repeat u8x len `" ++ [28040; 24687; 31867; 22411]%N ++ runes_of_ascii "`,
-As { u8x
-, } , int f32a
-`" ++ [233]%N ++ runes_of_ascii "`, @lengthOf( float ) Z9_
-// @lengthOf(
-// trailing space 
-`a\` , }")).
-Eval vm_compute in ("<<<M649>>>" ++ check (runes_of_ascii "// @lengthOf(
+Eval vm_compute in ("<<<M703>>>" ++ check (runes_of_ascii "// @lengthOf(
 packet i8i8 { u128 o , }
-options {  = true;
+options '1'{ MetaDataX = true;
     BodyLength =""packet"" x_y_z= 007
 crc //x
 = ""abc"" ;
     msg_type =
 i16 }")).
-Eval vm_compute in ("<<<M1538>>>" ++ check (runes_of_ascii "MetaData leftPad {
-    chars MetaDataX,
-}
+Eval vm_compute in ("<<<M120>>>" ++ check (runes_of_ascii "packet float {@calculatedFrom(
+// " ++ [128512]%N ++ runes_of_ascii " emoji
+// packet A { u8 x, }
+""CRC32"" )Foo `" ++ [28040; 24687; 31867; 22411]%N ++ runes_of_ascii "`	,@calculatedFrom( ""a\\"" )
+    zchar[ 0 ]	msg_type `doc` , }")).
+Eval vm_compute in ("<<<M1771>>>" ++ check (runes_of_ascii "packet A {
+    match k as n {
+        [
+            1, 22, ""c c"", 4, 5,
+            ""f"", 7, 8, ""i"", 10
+        ] : B,
+        2 : C,
+    },
+}")).
+Eval vm_compute in ("<<<M714>>>" ++ check (runes_of_ascii "// @lengthOf(
+packet i8i8 { u128 o , }
+options { MetaDataX = true;
+    BodyLength =""packet"" x_y_z= 007
+crc //x
+= ""abc"" ;
+    msg_type")).
+Eval vm_compute in ("<<<M1932>>>" ++ check (runes_of_ascii "
+packet A	{
+    u16 
+len
+    @lengthOf(
+	body) `a
+b`
 
-packet repeatCount {
-    char[255] uint8x `" ++ [233]%N ++ runes_of_ascii "`,
-}
-
-MetaData pack {
-    As Foo,
-}
-// c")).
-Eval vm_compute in ("<<<M1779>>>" ++ check (runes_of_ascii "//
-packet
-metadata	{ 
-} 
-MetaData
-
-    chars
-	    //x
-	//	t
-	{
-char[42
-    ]
-
-leftPad `crlf
-line`
-    ,
-
+    , u32 crc@calculatedFrom(""CRC32""
+)
+    `a
+b`,
+string
+body
+,
     }
 
 ")).
-Eval vm_compute in ("<<<M1163>>>" ++ check (runes_of_ascii "MetaData leftPad { chars MetaDataX , } packet repeatCount { char[ // c
-255 ] uint8x `" ++ [233]%N ++ runes_of_ascii "` , } MetaData pack { As Foo , }")).
-Eval vm_compute in ("<<<M218>>>" ++ check (runes_of_ascii "
-MetaData
-uint8x { char[ 007
-    ]leftPad ,Pad
-T ,u64 BodyLength , char[] int  ,float
-Z9_ , float32 metadata
-    , }
+Eval vm_compute in ("<<<M1194>>>" ++ check (runes_of_ascii "// top
+packet // c0
+body // c1
+{ // c2
+i32 // c3
+f32a // c4
+`{ , }` // c5
+, // c6
+} // c7
+options // c8
+{ // c9
+} // c10
 ")).
-Eval vm_compute in ("<<<M315>>>" ++ check (runes_of_ascii "packet Foo{ tag roots ,
-    // `tick` ""quote"" 'q'
-    i64_, @calculatedFrom( ""packet"" ) uint32 MetaDataX
-, }
-")).
-Eval vm_compute in ("<<<M1276>>>" ++ check (runes_of_ascii "options {
-    LittleEndian = true;
-}
-root packet P {
-    u16 a,
-    u32 Sum @calculatedFrom(""CRC32""),
-}
-")).
-Eval vm_compute in ("<<<M1614>>>" ++ check (runes_of_ascii "MetaData chars {
-    x_y_z x `line1
-    line2`,
-    _x A `// not a comment`,
-}// `tick` ""quote"" 'q'")).
-Eval vm_compute in ("<<<M568>>>" ++ check (runes_of_ascii "
-packet
-    asx {match match u128 as lengthOf
-{
-//	t
+Eval vm_compute in ("<<<M1158>>>" ++ check (runes_of_ascii "MetaData leftPad { chars MetaDataX , } packet
+// c
+repeatCount { char[ 255 ] uint8x `" ++ [233]%N ++ runes_of_ascii "` , } MetaData pack { As Foo , }")).
+Eval vm_compute in ("<<<M39>>>" ++ check (runes_of_ascii "options { o =
+    '\x00' // " ++ [128512]%N ++ runes_of_ascii " emoji
+; T = u32 ; msg_type
 // `tick` ""quote"" 'q'
-255 : x ,
-    } ,	}")).
-Eval vm_compute in ("<<<M1858>>>" ++ check (runes_of_ascii "packet u {
-    repeat A,
-    @lengthOf(lengthOf)
-    repeat i64 i64_,//
-    zchar[3] body,
-}")).
-Eval vm_compute in ("<<<M1540>>>" ++ check (runes_of_ascii "
-packet
-	A {
-
-    Inner {match
-    k
-
-as
-
-    n {
-
-[	1  ]
-    : 
-B ,
-    } ,
+//
+= ""a	b""  a1 = '\x00'
 }
-, }
+// " ++ [128512]%N ++ runes_of_ascii " emoji
 ")).
-Eval vm_compute in ("<<<M622>>>" ++ check (runes_of_ascii "
+Eval vm_compute in ("<<<M1244>>>" ++ check (runes_of_ascii "// top
+root // c0
+packet // c1
+P { // c3
+repeat // c4
+char cs
+    // c6
+, u8 x // c9a
+  // c9b
+, }
+    // c11
+")).
+Eval vm_compute in ("<<<M897>>>" ++ check (runes_of_ascii "packet A {
+  match k as n {
+    [""a"", 22, ""c c"", 4, ""e"", 66, ""g"", 8, ""i"", 10, ""k""] : B,
+    2 : C
+  },
+}")).
+Eval vm_compute in ("<<<M641>>>" ++ check (runes_of_ascii "
 packet
     asx {match u128 as lengthOf
 {
 //	t
 // `tick` ""quote"" 'q'
 255 : x ,
-    } ,	")).
-Eval vm_compute in ("<<<M1401>>>" ++ check (runes_of_ascii "packet A {
+    } @lengthOf ,	}")).
+Eval vm_compute in ("<<<M1832>>>" ++ check (runes_of_ascii "
+
+  packet
+    A
+    {B b
+`a
+    b
+  c` ,
+B
+    `a
+    b
+  c`,
+	repeat B	bs `a
+    b
+  c` ,
+
+}
+")).
+Eval vm_compute in ("<<<M717>>>" ++ check (runes_of_ascii "// @lengthOf(
+packet i8i8 { u128 o , }
+options { MetaDataX = true;
+    BodyLength =""packet"" ")).
+Eval vm_compute in ("<<<M631>>>" ++ check (runes_of_ascii "
+packet
+    asx {match u128 as lengthOf
+{
+//	t
+// `tick` ""quote"" 'q'
+255 %: x ,
+    } ,	}")).
+Eval vm_compute in ("<<<M1572>>>" ++ check (runes_of_ascii "packet A {
     match k as n {
-        1 : B,
-        // a// b
+        [1, ""bb"", 007, ""d"", 5] : B,
         2 : C,
     },
 }")).
-Eval vm_compute in ("<<<M833>>>" ++ check (runes_of_ascii "packet A {
+Eval vm_compute in ("<<<M846>>>" ++ check (runes_of_ascii "packet A {
   match k as n {
-    [""a"", 22, ""c c"", 4, ""e"", 66] : B
+    [""a"", 22, ""c c"", 4, ""e"", 66, ""g""] : B
     2 : C
   },
 }")).
-Eval vm_compute in ("<<<M802>>>" ++ check (runes_of_ascii "packet A {
+Eval vm_compute in ("<<<M815>>>" ++ check (runes_of_ascii "packet A {
   match k as n {
-    [""a"", ""bb"", ""c c"", ""d""] : B,
+    [""a"", ""bb"", ""c c"", ""d"", ""e""] : B,
     2 : C
   },
 }")).
-Eval vm_compute in ("<<<M91>>>" ++ check (runes_of_ascii "packet
-roots{ }	MetaData
-    metadata{
-asx matchKey ,
-uint64
-rootA , }")).
-Eval vm_compute in ("<<<M1409>>>" ++ check (runes_of_ascii "packet metadata {
-    u32 Packet `say ""hi""`,
-    // trailing space 
-}")).
-Eval vm_compute in ("<<<M1101>>>" ++ check (runes_of_ascii "// top
-MetaData
-    // c0
-tag
-    // c1
-{
-    // c2
-}
-    // c3
+Eval vm_compute in ("<<<M1612>>>" ++ check (runes_of_ascii "
+
+  packet A{	// a
+  @tag(  1 
+) u8
+x
+, // b
+	  // c
+		@tag( 2
+	)u8  y  , }
 ")).
-Eval vm_compute in ("<<<M775>>>" ++ check (runes_of_ascii "packet A {
-  match k as n {
-    [""a""] : B,
-    2 : C
-  },
+Eval vm_compute in ("<<<M1518>>>" ++ check (runes_of_ascii "packet A {
+    B b `a
+    b`,
+    B `a
+    b`,
+    repeat B bs `a
+    b`,
 }")).
-Eval vm_compute in ("<<<M1679>>>" ++ check (runes_of_ascii "MetaData
-
-M
-	{ u8
-
-    x `tab
-	x`	,
-
-T  t`tab
-	x` , }")).
-Eval vm_compute in ("<<<M1208>>>" ++ check (runes_of_ascii "packet body { i32 f32a
-// c
-`{ , }` , } options { }")).
-Eval vm_compute in ("<<<M1243>>>" ++ check (runes_of_ascii "root packet P {
-    repeat char cs,
-    u8 x,
-}
-")).
-Eval vm_compute in ("<<<M429>>>" ++ check (runes_of_ascii "packet uint8x
+Eval vm_compute in ("<<<M454>>>" ++ check (runes_of_ascii "packet uint8x
 { match pack
-    as msg_type")).
-Eval vm_compute in ("<<<M971>>>" ++ check (runes_of_ascii "options {
-    a = ""\
-"";
-    b = ""\
-""
+    as msg_type	{
+    0123456789 :	float
 }")).
-Eval vm_compute in ("<<<M1958>>>" ++ check (runes_of_ascii "packet A {
-    u8 x `
-        `,
-}")).
-Eval vm_compute in ("<<<M276>>>" ++ check (runes_of_ascii "MetaData repeatCount { }
-//	t
-")).
-Eval vm_compute in ("<<<M270>>>" ++ check (runes_of_ascii "  root packet msg_type
-{
-}
-")).
-Eval vm_compute in ("<<<M1930>>>" ++ check (runes_of_ascii "packet A {
-}// a// b// c")).
-Eval vm_compute in ("<<<M1510>>>" ++ check (runes_of_ascii "packet x {
-    // c
-}")).
-Eval vm_compute in ("<<<M95>>>" ++ check (runes_of_ascii "
-packet  Logon {}
-")).
-Eval vm_compute in ("<<<M1046>>>" ++ check (runes_of_ascii "packet A {
-}
-// c" ++ [8203]%N)).
-Eval vm_compute in ("<<<M1049>>>" ++ check (runes_of_ascii "packet A {
-}// c" ++ [65279]%N)).
-Eval vm_compute in ("<<<M626>>>" ++ check (runes_of_ascii "
+Eval vm_compute in ("<<<M628>>>" ++ check (runes_of_ascii "
 packet
-    as")).
-Eval vm_compute in ("<<<M1891>>>" ++ check (runes_of_ascii "
-// c" ++ [11]%N)).
-Eval vm_compute in ("<<<M86>>>" ++ check (runes_of_ascii "  ")).
+    asx {match u128 as lengthOf
+{
+//	t
+// `tick` ""quote""")).
+Eval vm_compute in ("<<<M778>>>" ++ check (runes_of_ascii "packet A {
+  match k as n {
+    [1, 22] : B,
+    2 : C
+  },
+}")).
+Eval vm_compute in ("<<<M1648>>>" ++ check (runes_of_ascii "
+packet
+A
+	{ B {// a
+	u8	x ,// b
+	}	// c
+
+,// d
+    }
+
+")).
+Eval vm_compute in ("<<<M1197>>>" ++ check (runes_of_ascii "// c
+packet body { i32 f32a `{ , }` , } options { }")).
+Eval vm_compute in ("<<<M1411>>>" ++ check (runes_of_ascii "packet A
+
+    {
+
+    u8 
+x
+	`d" ++ [65279]%N ++ runes_of_ascii "`
+	,// c" ++ [65279]%N ++ runes_of_ascii "
+  } ")).
+Eval vm_compute in ("<<<M1457>>>" ++ check (runes_of_ascii "MetaData o {
+}
+
+MetaData T {
+}
+
+options {
+}")).
+Eval vm_compute in ("<<<M1067>>>" ++ check (runes_of_ascii "packet A {    u8 x, // c    u8 y,}")).
+Eval vm_compute in ("<<<M197>>>" ++ check (runes_of_ascii "
+options {u8x
+=
+    ""packet"" ;	}
+")).
+Eval vm_compute in ("<<<M934>>>" ++ check (runes_of_ascii "root packet A {
+    u8 x `
+`,
+}")).
+Eval vm_compute in ("<<<M923>>>" ++ check (runes_of_ascii "packet A {
+    u8 x `a
+b`,
+}")).
+Eval vm_compute in ("<<<M1391>>>" ++ check (runes_of_ascii "
+// c
+
+packet
+	x
+	{
+}
+
+")).
+Eval vm_compute in ("<<<M51>>>" ++ check (runes_of_ascii "options {} // " ++ [128512]%N ++ runes_of_ascii " emoji")).
+Eval vm_compute in ("<<<M1128>>>" ++ check (runes_of_ascii "// c
+MetaData u { }")).
+Eval vm_compute in ("<<<M1017>>>" ++ check (runes_of_ascii "// c" ++ [8233]%N ++ runes_of_ascii "
+packet A {
+}")).
+Eval vm_compute in ("<<<M994>>>" ++ check (runes_of_ascii "packet A {
+}// c" ++ [5760]%N)).
+Eval vm_compute in ("<<<M761>>>" ++ check (runes_of_ascii "{];z" ++ [65533]%N ++ runes_of_ascii """t" ++ [65533; 65533; 65533]%N ++ runes_of_ascii "XKU" ++ [65533; 2]%N)).
+Eval vm_compute in ("<<<M741>>>" ++ check ([65533; 65533]%N ++ runes_of_ascii "1" ++ [65533]%N ++ runes_of_ascii "dcV")).
+Eval vm_compute in ("<<<M733>>>" ++ check (runes_of_ascii "
+
+
+")).
